@@ -882,3 +882,98 @@ func detIter(r *Rng, k int) *IterIn {
 		return &IterIn{Kind: "eig", M: genBlockDiag(b1, b2).Pack(), B1: true, Sym: true, Path: path, Family: fam, RealSpectrum: true}
 	}
 }
+
+// ---------------------------------------------------------------- round 7: late real 2x2 blocks
+//
+// LateBlockSweep: general (non-symmetric) matrices of size 6..10 for qrAlgorithm with ComputeU on which
+// the 2x2 post-processing of qrAlgorithm (single-shift QRstep with p = i rows ABOVE the active block and
+// q = n-i-2 columns to its right) is entered with i >= 4, so that H12 = H[0:i, i:i+2] has rows beyond the
+// first three and H23 is non-empty for the inner blocks.  Three variants per size:
+//   "late-real-block-quasitri"  real quasi upper triangular already (dense upper part); the last
+//                               diagonal blocks are 2x2 with REAL distinct eigenvalues and a diagonal
+//                               a != d (not the stationary F-QR-HANG shape), earlier blocks are 1x1 or
+//                               complex 2x2: the Hessenberg reduction and the Francis loop leave it
+//                               alone, every real 2x2 block is reduced by QRstep
+//   "late-real-block-similar"   the same matrix under a product of plane rotations (dense)
+//   "late-real-block-dense"     dense random floats
+func lateBlockQuasiTri(r *Rng, n int) *FM {
+	a := randFloat(r, n, n, 3)
+	for i := 0; i < n; i++ {
+		for j := 0; j < i; j++ {
+			a.Set(i, j, 0)
+		}
+	}
+	// block layout from the bottom: real 2x2 blocks while their first row is >= 4 (now and then a 1x1
+	// block in between), then a mix of 1x1, real 2x2 and complex 2x2 blocks
+	realBlock := func(k int) {
+		// real, distinct eigenvalues: (a-d)^2 + 4bc > 0, a != d
+		d := float64(r.Range(-3, 3)) + 0.25*float64(r.Range(0, 3))
+		a.Set(k, k, d+float64(r.Range(1, 3))+0.5*r.Float())
+		a.Set(k+1, k+1, d)
+		a.Set(k, k+1, 0.5+2*r.Float())
+		a.Set(k+1, k, 0.25+r.Float())
+		if r.Intn(3) == 0 { // b*c < 0 but still a real pair
+			gap := a.At(k, k) - a.At(k+1, k+1)
+			a.Set(k+1, k, -gap*gap/(8*a.At(k, k+1)))
+		}
+	}
+	i := n
+	for i > 0 {
+		switch {
+		case i-2 >= 4 && (i == n || r.Intn(4) != 0):
+			realBlock(i - 2)
+			i -= 2
+		case i-2 >= 0 && i-2 < 4 && r.Intn(3) == 0:
+			realBlock(i - 2)
+			i -= 2
+		case i-2 >= 0 && i-2 < 4 && r.Intn(3) == 0:
+			k := i - 2
+			th := 0.3 + 2.5*r.Float()
+			s := float64(r.Range(1, 3))
+			a.Set(k, k, s*math.Cos(th))
+			a.Set(k+1, k+1, s*math.Cos(th))
+			a.Set(k, k+1, s*math.Sin(th))
+			a.Set(k+1, k, -s*math.Sin(th))
+			i -= 2
+		default:
+			a.Set(i-1, i-1, float64(2*i-n)+0.125*float64(r.Range(0, 7)))
+			i--
+		}
+	}
+	return a
+}
+
+func planeRotate(a *FM, i, k int, th float64) {
+	c, s := math.Cos(th), math.Sin(th)
+	n := a.R
+	for j := 0; j < n; j++ { // rows: G^T A
+		x, y := a.At(i, j), a.At(k, j)
+		a.Set(i, j, c*x-s*y)
+		a.Set(k, j, s*x+c*y)
+	}
+	for j := 0; j < n; j++ { // columns: A G
+		x, y := a.At(j, i), a.At(j, k)
+		a.Set(j, i, c*x-s*y)
+		a.Set(j, k, s*x+c*y)
+	}
+}
+
+func LateBlockSweep(r *Rng) []*IterIn {
+	var out []*IterIn
+	for n := 6; n <= 10; n++ {
+		path := "f64"
+		if n%2 == 1 {
+			path = "r64"
+		}
+		t := lateBlockQuasiTri(r, n)
+		out = append(out, &IterIn{Kind: "qr", M: t.Clone().Pack(), B1: true, Path: path, Family: "late-real-block-quasitri"})
+		s := t.Clone()
+		for k := 0; k < 2*n; k++ {
+			i := r.Intn(n - 1)
+			planeRotate(s, i, r.Range(i+1, n-1), 3*r.Float())
+		}
+		out = append(out, &IterIn{Kind: "qr", M: s.Pack(), B1: true, Path: "f64", Family: "late-real-block-similar"})
+		out = append(out, &IterIn{Kind: "qr", M: randFloat(r, n, n, 4).Pack(), B1: true, Path: path, Family: "late-real-block-dense"})
+	}
+	return out
+}
